@@ -589,6 +589,9 @@ static void run_history(ACtx& cx, const std::vector<Step>& h, bool full_family, 
     bool fresh_checked = false;
     if (full_family || !bad.empty()) {   // replay on a freshly constructed solver object
       VSolver fresh(collecting);
+      // the fresh object additionally knows an executable path whose basename is not the solver name (as backends set it
+      // from argv[0]); no <basename>_options variable exists, so <solver>_options must still be read
+      fresh.set_exe_path("/opt/ampl/c11alt-10.2");
       Observed ob2 = execute(fresh, so, collecting);
       fresh_checked = true;
       if (!(ob2.st == ob.st) || ob2.nerr != ob.nerr || ob2.threw != ob.threw || ob2.ret_ok != ob.ret_ok) {
